@@ -15,4 +15,4 @@ Code it is anchored in: files {anch.get('files')}; mechanisms {json.dumps(anch.g
 
 Produce TWO independent changes (mutation 1 and mutation 2) to the library source (under causationentropy/, not the tests) each of which (a) breaks this property, (b) still lets the whole existing test suite pass: run `cd {wt} && PYTHONPATH={wt} /venv/bin/python -m pytest -q -p no:cacheprovider --timeout=900 -x --no-cov` and require "381 passed"; (c) looks like a plausible refactor / optimisation / bug-fix a maintainer might commit, and (d) needs something specific to manifest -- NOT something ordinary use exposes at once: a particular combination of arguments or an unusual-but-legal input, a boundary value, a multi-step sequence of operations or call history, a rarely taken branch, or two cooperating sites that each look fine alone. Use different sites / mechanisms for the two mutations.{(' Avoid these ideas, which have been used already: ' + avoid) if avoid else ''}
 
-For each mutation N in {{1,2}} write into {wt}/out/: `mutN.diff` (output of `git diff` for that mutation alone, applying cleanly with `git apply` to the clean checkout), `demoN.py` (a small standalone program: exits 0 on the clean checkout and non-zero with the mutation applied, printing what it observed; deterministic: fixed seeds; runtime under 2 minutes; if the property is statistical keep the demo's threshold far from both behaviours so it is not flaky), and `mutN.txt` (what was changed, why it violates the property, exactly what it needs in order to manifest, and why the existing tests do not notice). Leave the worktree clean at the end (`git checkout -- .`; the out/ directory is untracked and stays). Verify everything yourself: clean -> demo exit 0 and 381 passed; each mutation alone -> demo exit non-zero and 381 passed. Report a short summary of the two mutations.""")
+For each mutation N in {{1,2}} write into {wt}/out/: `mutN.diff` (output of `git diff` for that mutation alone, applying cleanly with `git apply` to the clean checkout), `demoN.py` (a small standalone program: exits 0 on the clean checkout and non-zero with the mutation applied, printing what it observed; deterministic: fixed seeds; runtime under 2 minutes; if the property is statistical keep the demo's threshold far from both behaviours so it is not flaky), and `mutN.txt` (what was changed, why it violates the property, exactly what it needs in order to manifest, and why the existing tests do not notice). Never use `git stash` (the stash is shared between all worktrees of this repository and other agents work in sibling worktrees); to switch between mutations use `git diff > file`, `git checkout -- .`, `git apply file`. Leave the worktree clean at the end (`git checkout -- .`; the out/ directory is untracked and stays). Verify everything yourself: clean -> demo exit 0 and 381 passed; each mutation alone -> demo exit non-zero and 381 passed. Report a short summary of the two mutations.""")
